@@ -159,6 +159,10 @@ MUTANTS = [
    (NW, """            #  Reverse changes to weightedPathLengths
             path_lengths[unconnected_pairs] = np.inf
 """, "")]},
+ {"name": "c01_query_order_apl_no_restore", "property": "C01", "edits": [
+   (NW, """            #  Reverse changes to path_lengths
+            path_lengths[unconnected_pairs] = np.inf
+""", "")]},
  {"name": "c06_apl_no_restore", "property": "C06", "edits": [
    (NW, """            #  Reverse changes to path_lengths
             path_lengths[unconnected_pairs] = np.inf
